@@ -1,6 +1,7 @@
 package main
 
 import (
+	"unicode/utf8"
 	"fmt"
 	"strconv"
 	"strings"
@@ -8,19 +9,32 @@ import (
 	"github.com/dekarrin/rosed"
 )
 
+// A text is written as its code points in hex joined by '.'; a byte that is not part of a
+// well-formed UTF-8 sequence (Go decodes each such byte as one U+FFFD of width 1) is written
+// as "-xx", the model's negative atom -0xxx: one atom, one byte long, break class Other.
 func encText(s string) string {
 	if s == "" {
 		return "-"
 	}
 	var sb strings.Builder
-	for i, r := range []rune(s) {
+	for i := 0; i < len(s); {
 		if i > 0 {
 			sb.WriteByte('.')
 		}
-		sb.WriteString(strconv.FormatInt(int64(r), 16))
+		r, n := utf8.DecodeRuneInString(s[i:])
+		if r == utf8.RuneError && n == 1 {
+			sb.WriteString("-" + strconv.FormatInt(int64(s[i]), 16))
+		} else {
+			sb.WriteString(strconv.FormatInt(int64(r), 16))
+		}
+		i += n
 	}
 	return sb.String()
 }
+
+// set when a text with raw (ill-formed) bytes was decoded for the current case: outputs are
+// then not expected to be valid UTF-8
+var sawRaw bool
 
 func encRunes(rs []rune) string {
 	if len(rs) == 0 {
@@ -57,7 +71,16 @@ func decText(s string) (string, bool) {
 	if !ok {
 		return "", false
 	}
-	return string(rs), true
+	var sb strings.Builder
+	for _, r := range rs {
+		if r <= -0x80 && r >= -0xff {
+			sb.WriteByte(byte(-r))
+			sawRaw = true
+		} else {
+			sb.WriteRune(r)
+		}
+	}
+	return sb.String(), true
 }
 
 func decInt(s string) (int, bool) {
